@@ -26,6 +26,10 @@ func checkC01(ctx *Ctx) *Result {
 	r.rule("R1.5", "Insert always adds (or is subsumed by a wildcard entry); wildcard flag = result of the `*` test", 6)
 	r.rule("R1.6", "strip/guard agreement: exactly the tested bytes are dropped from the key", 2)
 	r.rule("R1.7", "Contains: exact entries iff host exhausted, wildcard entries while bytes remain, descend only on full suffix match", 5)
+	r.rule("R1.8", "Insert's restructuring keeps the key decomposition: every edge is labelled by the last byte of the (non-empty) suffix of the node it leads to; a split replaces the child by a node holding the common suffix, under which the old child (all four slices, remaining prefix) and the new key's remaining prefix hang", 6)
+	r.rule("R1.9", "splitAtCommonSuffix removes the same number of trailing bytes from both arguments and returns that many trailing bytes of the shorter one, comparing byte by byte from the end and stopping at the first difference", 4)
+	insertRestructuring(ctx, r)
+	commonSuffixRule(ctx, r)
 	// ---- R1.1 -----------------------------------------------------------
 	rt, ok := requestTableGuards(ctx, r)
 	if ok {
@@ -742,5 +746,259 @@ func parallelSlicesMode(ctx *Ctx, r *Result, rule string, lengthOnly bool) {
 	}
 	if n < 4 {
 		r.undecided(rule, "parallel-slice stores", fmt.Sprintf("only %d stores to the node's parallel slices found", n))
+	}
+}
+
+// insertRestructuring implements R1.8 on the path summaries of Tree.Insert.
+func insertRestructuring(ctx *Ctx, r *Result) {
+	p := ctx.P
+	fn := p.Func(pkgOrigins, "(*Tree).Insert")
+	if fn == nil {
+		r.undecided("R1.8", "Tree.Insert", "anchor not found")
+		return
+	}
+	x := p.NewExec(p.RadixPolicy)
+	x.FieldsWritten = ctx.WE().FieldsWritten
+	paths := x.Summarize(fn)
+	if len(x.Problems) > 0 {
+		r.undecided("R1.8", "Tree.Insert", strings.Join(x.Problems, ";"))
+		return
+	}
+	lastByte := func(t string) string { return "index(" + t + ", bin:-(len:builtin.len(" + t + "), 1))" }
+	nUpserts := 0
+	for _, pa := range paths {
+		if pa.Start == "entry" {
+			continue
+		}
+		hdr := pa.Start
+		var S, N string
+		for name := range pa.Next {
+			_ = name
+		}
+		// loop-carried key and node by type
+		for _, a := range pa.Atoms[pa.PreAt:] {
+			a.T.Mentions(func(t *Term) bool {
+				if t.Op == "loopphi" && strings.HasSuffix(t.Name, "@"+hdr) {
+					if t.Type != nil && types.TypeString(t.Type, nil) == "string" {
+						S = t.Key()
+					} else if isNamedPtr(t.Type, pkgOrigins, "node") {
+						N = t.Key()
+					}
+				}
+				return false
+			})
+		}
+		if S == "" || N == "" {
+			continue
+		}
+		E := "call:slices.BinarySearch(" + N + ".edges, " + lastByte(S) + ")"
+		CH := "iaddr(" + N + ".children, " + E + "#0)"
+		SPL := "call:origins.splitAtCommonSuffix(" + S + ", " + CH + ".suf)"
+		desc := "Tree.Insert {" + radixShort(pa) + "}"
+		good, detail := true, ""
+		var first *Term // result of the upsert that replaces the child on split paths
+		sawG1, sawRest := false, false
+		split := false
+		for _, e := range pa.Effects[pa.PreEff:] {
+			if e.Kind != "call" {
+				continue
+			}
+			switch e.Name {
+			case "(*origins.node).upsertEdge":
+				nUpserts++
+				if len(e.Args) != 3 {
+					good, detail = false, "unexpected arity"
+					continue
+				}
+				target, label, node := e.Args[0].Key(), e.Args[1].Key(), e.Args[2]
+				suf := fieldOf(node, "suf").Key()
+				get := func(f string) *Term { return fieldOf(node, f) }
+				isZero := func(f string) bool { t := get(f); return t.Op == "zero" || t.IsConst("nil") }
+				switch {
+				case suf == S:
+					// brand-new child holding the whole remaining key
+					if target != N || label != lastByte(S) {
+						good, detail = false, "a new child holding the remaining key is not attached to the current node under the key's last byte"
+					}
+					if pa.Val(E+"#1") != -1 {
+						good, detail = false, "a new child is created although an edge for the key's last byte exists"
+					}
+					if !isZero("edges") || !isZero("children") {
+						good, detail = false, "a brand-new child is created with descendants"
+					}
+				case suf == SPL+"#2":
+					split = true
+					first = e.Res
+					if target != N || label != lastByte(S) {
+						good, detail = false, "the node holding the common suffix does not replace the child under the same edge label"
+					}
+					if pa.Val(E+"#1") != 1 || pa.Val("bin:==(len:builtin.len("+SPL+"#1), 0)") != -1 {
+						good, detail = false, "a child is split although its whole suffix matches (or no edge was found)"
+					}
+					for _, f := range []string{"edges", "children", "schemes", "ports"} {
+						if !isZero(f) {
+							good, detail = false, "the node holding the common suffix is not created empty ("+f+")"
+						}
+					}
+				case suf == SPL+"#1":
+					sawG1 = true
+					if first == nil || target != first.Key() || label != lastByte(SPL+"#1") {
+						good, detail = false, "the old child's remainder is not re-attached under the common-suffix node by the last byte of its remaining prefix"
+					}
+					for _, f := range []string{"edges", "children", "schemes", "ports"} {
+						if get(f).Key() != CH+"."+f {
+							good, detail = false, "the old child's "+f+" are not carried over to its remainder: "+get(f).Key()
+						}
+					}
+				case suf == SPL+"#0":
+					sawRest = true
+					if first == nil || target != first.Key() || label != lastByte(SPL+"#0") {
+						good, detail = false, "the new key's remaining prefix is not attached under the common-suffix node by its last byte"
+					}
+					if pa.Val("bin:==(len:builtin.len("+SPL+"#0), 0)") != -1 {
+						good, detail = false, "a node with an empty suffix may be created for the new key"
+					}
+					if !isZero("edges") || !isZero("children") {
+						good, detail = false, "the new key's node is created with descendants"
+					}
+				default:
+					good, detail = false, "a node is attached whose suffix is none of: the remaining key, the common suffix, the child's remaining prefix, the key's remaining prefix: "+suf
+				}
+			case "(*origins.node).add":
+				if split && first != nil && e.Args[0].Key() == first.Key() {
+					sawRest = true
+					if pa.Val("bin:==(len:builtin.len("+SPL+"#0), 0)") != 1 {
+						good, detail = false, "the pattern is recorded on the common-suffix node although part of its key remains"
+					}
+				}
+			}
+		}
+		if split && (!sawG1 || !sawRest) {
+			good, detail = false, "a split does not both re-attach the old child's remainder and record the new pattern"
+		}
+		// descending: the whole child suffix matched
+		if pa.End == hdr {
+			if pa.Val(E+"#1") != 1 || pa.Val("bin:==(len:builtin.len("+SPL+"#1), 0)") != 1 {
+				good, detail = false, "Insert descends without the child's whole suffix matching the key"
+			}
+			var ns, nn string
+			for name, v := range pa.Next {
+				if "loopphi:"+name+"@"+hdr == S {
+					ns = v.Key()
+				}
+				if "loopphi:"+name+"@"+hdr == N {
+					nn = v.Key()
+				}
+			}
+			if ns != SPL+"#0" || nn != CH {
+				good, detail = false, "after descending, (key, node) are not (key minus the matched suffix, the child): "+ns+", "+nn
+			}
+		}
+		r.check(good, "R1.8", desc, "", detail, len(pa.Effects))
+	}
+	if nUpserts < 8 {
+		r.undecided("R1.8", "Tree.Insert", fmt.Sprintf("only %d edge insertions found on Insert's paths", nUpserts))
+	}
+}
+
+// commonSuffixRule implements R1.9.
+func commonSuffixRule(ctx *Ctx, r *Result) {
+	p := ctx.P
+	fn := p.Func(pkgOrigins, "splitAtCommonSuffix")
+	if fn == nil || len(fn.Params) != 2 {
+		r.undecided("R1.9", "splitAtCommonSuffix", "anchor not found")
+		return
+	}
+	x := p.NewExec(nil)
+	paths := x.Summarize(fn)
+	if len(x.Problems) > 0 || len(loopHeaders(fn)) != 1 {
+		r.undecided("R1.9", "splitAtCommonSuffix", "not a single-loop function: "+strings.Join(x.Problems, ";"))
+		return
+	}
+	A, B := "param:"+fn.Params[0].Name(), "param:"+fn.Params[1].Name()
+	nRet := 0
+	for _, pa := range paths {
+		if pa.Start == "entry" {
+			continue
+		}
+		desc := "splitAtCommonSuffix {" + radixShort(pa) + "}"
+		good, detail := true, ""
+		// which argument is the shorter one on this path
+		short, long := A, B
+		switch pa.Val("bin:<(len:builtin.len(" + B + "), len:builtin.len(" + A + "))") {
+		case 1:
+			short, long = B, A
+		case 0:
+			good, detail = false, "the path does not compare the lengths of the two arguments"
+		}
+		var phi string
+		for _, a := range pa.Atoms[pa.PreAt:] {
+			a.T.Mentions(func(t *Term) bool {
+				if t.Op == "loopphi" {
+					phi = t.Key()
+				}
+				return false
+			})
+		}
+		aligned := "slice(" + long + ", bin:-(len:builtin.len(" + long + "), len:builtin.len(" + short + ")), _, _)"
+		eq := "bin:==(index(" + short + ", " + phi + "), index(" + aligned + ", " + phi + "))"
+		if pa.End == "return" {
+			nRet++
+			if len(pa.Rets) != 3 {
+				good, detail = false, "unexpected arity"
+			} else {
+				z := newZB()
+				r0, r1, r2 := pa.Rets[0], pa.Rets[1], pa.Rets[2]
+				okShape := r0.Op == "slice" && r0.Args[0].Key() == A && r0.Args[1].IsConst("_") &&
+					r1.Op == "slice" && r1.Args[0].Key() == B && r1.Args[1].IsConst("_") &&
+					r2.Op == "slice" && r2.Args[0].Key() == short && r2.Args[2].IsConst("_")
+				if !okShape {
+					good, detail = false, "results are not (prefix of a, prefix of b, suffix of the shorter argument)"
+				} else {
+					rem0 := z.linLen(&Term{Op: "param", Name: fn.Params[0].Name()}).add(z.lin(r0.Args[2]), -1)
+					rem1 := z.linLen(&Term{Op: "param", Name: fn.Params[1].Name()}).add(z.lin(r1.Args[2]), -1)
+					sufLen := z.linLen(r2)
+					d1, d2 := rem0.add(rem1, -1), rem0.add(sufLen, -1)
+					if !(d1.isConst() && d1.c == 0 && d2.isConst() && d2.c == 0) {
+						good, detail = false, fmt.Sprintf("the numbers of bytes removed from a (%s) and b (%s) and the length of the returned suffix (%s) differ", rem0, rem1, sufLen)
+					}
+				}
+				// stop only at the first difference or when the shorter argument is exhausted
+				if pa.Val("bin:<("+phi+", 0)") != 1 && pa.Val(eq) != -1 {
+					good, detail = false, "the scan stops although the bytes compared are equal and bytes remain (the suffix returned is not the longest common one)"
+				}
+			}
+		} else {
+			// back edge: continue only on equal bytes, one position to the left
+			if pa.Val("bin:<("+phi+", 0)") != -1 || pa.Val(eq) != 1 {
+				good, detail = false, "the scan continues without having compared equal bytes at the same distance from the end"
+			}
+			for name, v := range pa.Next {
+				if "loopphi:"+name+"@"+pa.Start == phi && v.Key() != "bin:-("+phi+", 1)" {
+					good, detail = false, "the scan does not move one byte to the left: "+v.Key()
+				}
+			}
+		}
+		r.check(good, "R1.9", desc, "", detail, 1)
+	}
+	// the scan starts at the last byte of the shorter argument
+	for _, pa := range paths {
+		if pa.Start != "entry" {
+			continue
+		}
+		short := A
+		if pa.Val("bin:<(len:builtin.len("+B+"), len:builtin.len("+A+"))") == 1 {
+			short = B
+		}
+		okInit := false
+		for _, v := range pa.Next {
+			if v.Key() == "bin:-(len:builtin.len("+short+"), 1)" {
+				okInit = true
+			}
+		}
+		r.check(okInit, "R1.9", "splitAtCommonSuffix: scan starts at the last byte of the shorter argument {"+radixShort(pa)+"}", "", "the scan does not start at len(shorter)-1", 1)
+	}
+	if nRet < 4 {
+		r.undecided("R1.9", "splitAtCommonSuffix", fmt.Sprintf("only %d return segments", nRet))
 	}
 }
